@@ -25,9 +25,10 @@ _SIMSTATES = re.compile(r'The number of states generated: (\d+)')
 
 
 def ensure_built():
-    if not (CLASSES / 'Rat.class').exists() or (CLASSES / 'Rat.class').stat().st_mtime < (SPEC / 'Rat.java').stat().st_mtime:
+    srcs = [SPEC / 'Rat.java', SPEC / 'Str.java']
+    if any(not (CLASSES / (s_.stem + '.class')).exists() or (CLASSES / (s_.stem + '.class')).stat().st_mtime < s_.stat().st_mtime for s_ in srcs):
         CLASSES.mkdir(exist_ok=True)
-        r = subprocess.run(['javac', '-cp', JAR, '-d', str(CLASSES), str(SPEC / 'Rat.java')], capture_output=True, text=True)
+        r = subprocess.run(['javac', '-cp', JAR, '-d', str(CLASSES)] + [str(s_) for s_ in srcs], capture_output=True, text=True)
         if r.returncode != 0:
             raise MachineryFailure('javac Rat.java failed: ' + r.stderr)
 
